@@ -145,6 +145,15 @@ def matrix_programs(h, w, max_stages, reduced):
                 body = [('stage', (N(0), None), None), SECOND[mode], ('stage', None, (N(w - 1), None))]
                 body.insert(pos if pos < 2 else 3, inner)
                 yield COLORS[mode] + (('act', 'set', (('block', S('m'), tuple(body)),)), ('print', N(1)))
+        # `set default` executed inside the block (before, between, after the stages; with and without one saved
+        # before the block): uncovered cells carry the colour last saved when the matrix is transmitted
+        for with_default in (False, True):
+            head = COLORS[mode] + (DEFAULT[mode] + COLORS[mode][1 if mode != 'logical' else 0:] if with_default else ())
+            for pos in (0, 1, 2):
+                body = [('stage', (N(0), None), None), ('stage', None, (N(w - 1), None))]
+                body[pos:pos] = [THIRD[mode], ('setdefault',), SECOND[mode]]
+                yield head + (('act', 'set', (('block', S('m'), tuple(body)),)), ('print', N(1)),
+                              ('act', 'set', (('matrix', S('m'), (N(h - 1), None), None),)))
         # blocks inside a routine that uses its parameters before, inside and after each block
         yield COLORS[mode] + (('define', 'f', ('r', 'c'), (
             ('act', 'set', (('block', S('m'), (('stage', (V('r'), None), None),)),)),
